@@ -74,6 +74,7 @@ package goja
 //@ func (*generator).enterNext
 //@   props C03 C15
 //@   requires g != nil && g.vm != nil
+//@   assigns g.tryStackLen, g.iterStackLen, g.refStackLen, @vmRegs, any(vm.prg), any(vm.newTarget), any(vm.result), any(vm.stack), elems(g.vm.stack), any(vm.iterStack), elems(g.vm.iterStack), any(vm.refStack), elems(g.vm.refStack), any(context.prg), any(context.stash), any(context.privEnv), any(context.newTarget), any(context.result), any(context.pc), any(context.sb), any(context.args)
 //@   ensures forall m int :: 0 <= m && m < old(len(g.vm.tryStack)) ==> g.vm.tryStack[m].catchPos == old(g.vm.tryStack[m].catchPos) && g.vm.tryStack[m].finallyRet == old(g.vm.tryStack[m].finallyRet) [frames-below-kept]
 //@   requires g != nil && g.vm != nil
 //@   ensures int(g.tryStackLen) == old(len(g.vm.tryStack))+1 && int(g.tryStackLen) <= len(g.vm.tryStack) && g.vm.tryStack[int(g.tryStackLen)-1].catchPos == tryPanicMarker && g.vm.tryStack[int(g.tryStackLen)-1].finallyRet == -1 [marker-pushed-and-recorded]
@@ -81,18 +82,35 @@ package goja
 //@ func (*generator).next
 //@   props C03 C15
 //@   requires g != nil && g.vm != nil
+//@   ensures_abrupt len(g.vm.tryStack) < int(g.tryStackLen) [unwound-below-the-recorded-height]
+//@   assigns script, @vmRegs, g.tryStackLen, g.iterStackLen, g.refStackLen
+// Assumed for the returning exits (the suspend/resume bookkeeping of the generator's own frames is not
+// decided): when the step yields or completes, its frames have been saved or popped and the frame
+// removed afterwards is the marker pushed on entry.
+//@   ensures_assumed @gMarkersKept [markers-kept]
+//@   ensures_assumed @gNoNewMarkers [no-marker-left-behind]
+//@   ensures_assumed result1 == resultYield || result1 == resultYieldDelegate || result1 == resultYieldRes || result1 == resultYieldDelegateRes || result1 == resultNormal [result-type-is-one-of-the-five]
 //@   ensures_abrupt @gMarkersKept [markers-kept]
 //@   ensures_abrupt @gNoNewMarkers [no-marker-left-behind]
 
 //@ func (*generator).nextThrow
 //@   props C03 C15
 //@   requires g != nil && g.vm != nil
+//@   ensures_abrupt len(g.vm.tryStack) < int(g.tryStackLen) [unwound-below-the-recorded-height]
+//@   assigns script, @vmRegs, g.tryStackLen, g.iterStackLen, g.refStackLen
+// Assumed for the returning exits (the suspend/resume bookkeeping of the generator's own frames is not
+// decided): when the step yields or completes, its frames have been saved or popped and the frame
+// removed afterwards is the marker pushed on entry.
+//@   ensures_assumed @gMarkersKept [markers-kept]
+//@   ensures_assumed @gNoNewMarkers [no-marker-left-behind]
+//@   ensures_assumed result1 == resultYield || result1 == resultYieldDelegate || result1 == resultYieldRes || result1 == resultYieldDelegateRes || result1 == resultNormal [result-type-is-one-of-the-five]
 //@   ensures_abrupt @gMarkersKept [markers-kept]
 //@   ensures_abrupt @gNoNewMarkers [no-marker-left-behind]
 
 //@ func (*generator).enter
 //@   props C03 C15
 //@   requires g != nil && g.vm != nil
+//@   assigns g.tryStackLen, g.iterStackLen, g.refStackLen, @vmRegs, any(vm.prg), any(vm.newTarget), any(vm.result), any(vm.stack), elems(g.vm.stack), any(vm.iterStack), elems(g.vm.iterStack), any(vm.refStack), elems(g.vm.refStack), any(context.prg), any(context.stash), any(context.privEnv), any(context.newTarget), any(context.result), any(context.pc), any(context.sb), any(context.args)
 //@   ensures forall m int :: 0 <= m && m < old(len(g.vm.tryStack)) ==> g.vm.tryStack[m].catchPos == old(g.vm.tryStack[m].catchPos) && g.vm.tryStack[m].finallyRet == old(g.vm.tryStack[m].finallyRet) [frames-below-kept]
 //@   ensures int(g.tryStackLen) == old(len(g.vm.tryStack))+1 && @ownMarker [marker-pushed-and-recorded]
 
@@ -111,8 +129,11 @@ package goja
 //@   ensures_abrupt @noNewMarkers [no-marker-left-behind]
 
 //@ func (*generatorObject)._return
-//@   props C03 C15 C08
+//@   props C03 C15 C08 C09
 //@   requires g != nil && g.gen.vm != nil
+//@   ensures @neverLeftExecuting [never-left-executing]
+//@   ensures_abrupt @neverLeftExecuting [never-left-executing-on-panic]
+//@   ensures old(g.state) == genStateSuspendedStart || old(g.state) == genStateCompleted ==> g.state == genStateCompleted [not-started-or-completed-completes]
 //@   ensures_abrupt forall m int :: 0 <= m && m < old(len(g.gen.vm.tryStack)) && (old(g.gen.vm.tryStack[m].catchPos) == tryPanicMarker && old(g.gen.vm.tryStack[m].finallyRet) == -1) ==> m < len(g.gen.vm.tryStack) && (g.gen.vm.tryStack[m].catchPos == tryPanicMarker && g.gen.vm.tryStack[m].finallyRet == -1) [markers-kept]
 //@   ensures_abrupt forall m int :: 0 <= m && m < len(g.gen.vm.tryStack) && (g.gen.vm.tryStack[m].catchPos == tryPanicMarker && g.gen.vm.tryStack[m].finallyRet == -1) ==> m < old(len(g.gen.vm.tryStack)) && (old(g.gen.vm.tryStack[m].catchPos) == tryPanicMarker && old(g.gen.vm.tryStack[m].finallyRet) == -1) [no-marker-left-behind]
 
